@@ -109,6 +109,12 @@ func routeGen(kind string, sequential bool) func(r *rand.Rand, tier string) []sp
 					p.Items = append(p.Items, spec.RouteItem{Dir: side, AcceptFirst: k == 0, GapMs: 300, StaleDial: true, ID: 3000000 + uint32(len(out))*4 + uint32(k)})
 				}
 			}
+			if kind == "mux" && i%4 == 0 {
+				// ids whose Accept is lined up with the arrival of their dial at the accepting side
+				for k := 0; k < 24; k++ {
+					p.Items = append(p.Items, spec.RouteItem{Dir: []string{"host", "plugin"}[k%2], LineUp: true, Len: r.Intn(300), ID: 6000000 + uint32(len(out))*64 + uint32(k)})
+				}
+			}
 			if kind == "mux" && i%4 == 2 {
 				// one pair whose accept comes late in the dial's pending window (4.0 s) and is then held for
 				// 1.3 s between pick-up and acknowledgement, across the moment the parked dial would have
@@ -340,6 +346,9 @@ func routeJudge(prop string) func(c spec.Case, evs []spec.Event, d *Death) CaseR
 			res.Counters["pairs"]++
 			if it.Reaccept {
 				res.Counters["reaccepts"]++
+			}
+			if it.LineUp {
+				res.Counters["accepts_lined_up_with_dial_arrival"]++
 			}
 			if it.ShortConnect {
 				res.Counters["short_connect_timeout_dials"]++
